@@ -411,6 +411,9 @@ type verifRaceCase struct {
 	Kinds    []string          `json:"kinds"`  // kinds of nodes 0, 1, 2
 	Remove   int               `json:"remove"` // the node removed during the parked Get
 	Probes   []json.RawMessage `json:"probes"`
+	// Edge: the probe keys are given FORCED hash values at the edges of the ring (through the caller-supplied hash
+	// function), and the node removed is the one owning the highest ring position (reported as "removed")
+	Edge bool `json:"edge"`
 }
 
 func verifRace(c verifRaceCase) any {
@@ -422,10 +425,18 @@ func verifRace(c verifRaceCase) any {
 		Hung     bool `json:"hung"`     // Get or Remove did not return
 	}
 	rows := make([]row, 0, len(c.Probes))
-	for _, raw := range c.Probes {
+	removed := c.Remove
+	for pi, raw := range c.Probes {
 		key := verifMakeKey(raw)
+		if c.Edge {
+			key = "edge:" + strconv.Itoa(pi)
+		}
 		var mu sync.Mutex
 		var armed []byte
+		adding := -1
+		var pos [3][]uint64
+		var forcedKey []byte
+		var forced uint64
 		parked := make(chan struct{})
 		release := make(chan struct{})
 		fn := func(data []byte) uint64 {
@@ -434,10 +445,18 @@ func verifRace(c verifRaceCase) any {
 			if hit {
 				armed = nil
 			}
+			if adding >= 0 {
+				pos[adding] = append(pos[adding], Hash(data))
+			}
+			isForced := forcedKey != nil && string(forcedKey) == string(data)
+			fv := forced
 			mu.Unlock()
 			if hit {
 				close(parked)
 				<-release
+			}
+			if isForced {
+				return fv
 			}
 			return Hash(data)
 		}
@@ -445,7 +464,60 @@ func verifRace(c verifRaceCase) any {
 		nodes := make([]any, 3)
 		for i := range nodes {
 			nodes[i] = verifMakeNode(verifNodeKind(c.Kinds, i), i)
+			mu.Lock()
+			adding = i
+			mu.Unlock()
 			h.Add(nodes[i])
+			mu.Lock()
+			adding = -1
+			mu.Unlock()
+		}
+		if c.Edge {
+			maxOf := func(xs []uint64) (m uint64) {
+				for _, x := range xs {
+					if x > m {
+						m = x
+					}
+				}
+				return
+			}
+			removed = 0
+			for i := 1; i < 3; i++ {
+				if maxOf(pos[i]) > maxOf(pos[removed]) {
+					removed = i
+				}
+			}
+			gmax, maxSurv, rmin := maxOf(pos[removed]), uint64(0), ^uint64(0)
+			for i := 0; i < 3; i++ {
+				if i != removed && maxOf(pos[i]) > maxSurv {
+					maxSurv = maxOf(pos[i])
+				}
+			}
+			for _, x := range pos[removed] {
+				if x < rmin {
+					rmin = x
+				}
+			}
+			fv := gmax
+			switch pi % 7 {
+			case 1:
+				if gmax-1 > maxSurv {
+					fv = gmax - 1
+				}
+			case 2:
+				fv = maxSurv + 1
+			case 3:
+				fv = maxSurv
+			case 4:
+				fv = ^uint64(0)
+			case 5:
+				fv = 0
+			case 6:
+				fv = rmin
+			}
+			mu.Lock()
+			forcedKey, forced = []byte(repr(key)), fv
+			mu.Unlock()
 		}
 		idOf := func(got any, ok bool, panicked bool) int {
 			if panicked {
@@ -480,7 +552,7 @@ func verifRace(c verifRaceCase) any {
 			r.Hung = true
 		}
 		rmDone := make(chan bool, 1)
-		go func() { rmDone <- verifTry(func() { h.Remove(nodes[c.Remove]) }) }()
+		go func() { rmDone <- verifTry(func() { h.Remove(nodes[removed]) }) }()
 		rmPanicked, rmReturned := false, false
 		select {
 		case rmPanicked = <-rmDone: // the Remove ran to completion although a lookup was in progress
@@ -513,5 +585,5 @@ func verifRace(c verifRaceCase) any {
 		}
 		rows = append(rows, r)
 	}
-	return map[string]any{"rows": rows}
+	return map[string]any{"rows": rows, "removed": removed}
 }
